@@ -516,7 +516,12 @@ class ContainerValue:
             "list_value": ListValue,
             "map_or_list_value": MapOrListValue,
         }
-        spec = dict(spec)  # entries are popped below: work on a copy, not on the caller's mapping
+        if not isinstance(spec, dict):
+            raise TypeError(
+                f"A container item specification must be a mapping, but found: {spec!r}."
+            )
+        # entries are popped below: work on a copy, not on the caller's mapping
+        spec = dict(spec)
         container_type = spec.pop("type", "map_or_list_value")
         try:
             cls = CLS_LOOKUP[container_type]
@@ -558,14 +563,18 @@ class ContainerValue:
             condition = condition & new_cond
 
         # shorthand specs:
-        value_short_keys = [i for i in spec if i.startswith("value.")]
+        value_short_keys = [
+            i for i in spec if isinstance(i, str) and i.startswith("value.")
+        ]
         value_short_cond_specs = {i: spec.pop(i) for i in value_short_keys}
         for spec_k, spec_v in value_short_cond_specs.items():
             condition = condition & cnds.ConditionLike.from_spec({spec_k: spec_v})
 
         if cls == MapValue:
             # shorthand specs:
-            key_short_keys = [i for i in spec if i.startswith("key.")]
+            key_short_keys = [
+                i for i in spec if isinstance(i, str) and i.startswith("key.")
+            ]
             key_short_cond_specs = {i: spec.pop(i) for i in key_short_keys}
             for spec_k, spec_v in key_short_cond_specs.items():
                 condition = condition & cnds.ConditionLike.from_spec({spec_k: spec_v})
@@ -582,7 +591,9 @@ class ContainerValue:
 
         elif cls == ListValue:
             # shorthand specs:
-            index_short_keys = [i for i in spec if i.startswith("index.")]
+            index_short_keys = [
+                i for i in spec if isinstance(i, str) and i.startswith("index.")
+            ]
             index_short_cond_specs = {i: spec.pop(i) for i in index_short_keys}
             for spec_k, spec_v in index_short_cond_specs.items():
                 condition = condition & cnds.ConditionLike.from_spec({spec_k: spec_v})
@@ -599,7 +610,9 @@ class ContainerValue:
 
         elif cls == MapOrListValue:
             # shorthand specs:
-            index_short_keys = [i for i in spec if i.startswith("index.")]
+            index_short_keys = [
+                i for i in spec if isinstance(i, str) and i.startswith("index.")
+            ]
             index_short_cond_specs = {i: spec.pop(i) for i in index_short_keys}
             for spec_k, spec_v in index_short_cond_specs.items():
                 list_condition = list_condition & cnds.ConditionLike.from_spec(
@@ -607,7 +620,9 @@ class ContainerValue:
                 )
 
             # shorthand specs:
-            key_short_keys = [i for i in spec if i.startswith("key.")]
+            key_short_keys = [
+                i for i in spec if isinstance(i, str) and i.startswith("key.")
+            ]
             key_short_cond_specs = {i: spec.pop(i) for i in key_short_keys}
             for spec_k, spec_v in key_short_cond_specs.items():
                 map_condition = map_condition & cnds.ConditionLike.from_spec(
